@@ -65,6 +65,7 @@ type hist struct {
 	blocksInEpoch int
 	blockNo       int
 	nReorgs       int
+	graphSent     map[int]uint64 // edge index -> height of the last DelegateTx submission
 	flagsAt       map[uint64]int
 	txsAt         map[uint64][]string
 	pendingEpoch  func(r *replica) // re-delivers the injected epoch results (stand-in for on-chain data)
@@ -82,6 +83,7 @@ type txRec struct {
 type schedule []map[string]string
 
 type scenCfg struct {
+	graph      [][2]int // delegation graph scenario (edges delegator -> delegatee over keys 1..4), exported by TLC from EpochLoop.tla
 	heavy      bool
 	reorgs     bool
 	replays    bool
@@ -118,16 +120,25 @@ func newHist(seed int64, id int, cfg *scenCfg, out *tr.W) *hist {
 	w.FirstCeremony = 1693666800 // Sat 2023-09-02 15:00:00 UTC
 	st := []state.IdentityState{state.Verified, state.Human, state.Newbie, state.Verified, state.Candidate, state.Suspended, state.Zombie}
 	w.Allocs = append(w.Allocs, sim.Alloc{Key: 0, State: state.Verified, Balance: sim.Dna(100000, 1), Stake: sim.Dna(1000, 1)})
+	if cfg.graph != nil {
+		st = []state.IdentityState{state.Candidate, state.Candidate, state.Candidate, state.Candidate, state.Verified, state.Verified, state.Newbie}
+		w.Cons.DelegationSwitchRange = 5
+	}
 	for i := 1; i <= 7; i++ {
 		w.Allocs = append(w.Allocs, sim.Alloc{Key: i, State: st[i-1], Balance: sim.Dna(int64(2000+rnd.Intn(3000)), 1), Stake: sim.Dna(int64(50+rnd.Intn(500)), 1)})
 	}
 	w.Allocs = append(w.Allocs, sim.Alloc{Key: 8, State: state.Undefined, Balance: sim.Dna(3000, 1)})
+	// more validated identities without a node of their own: pool members, invitees, committee members
+	for i := 9; i <= 14; i++ {
+		w.Allocs = append(w.Allocs, sim.Alloc{Key: i, State: []state.IdentityState{state.Verified, state.Newbie, state.Human}[i%3],
+			Balance: sim.Dna(int64(1500+rnd.Intn(1500)), 1), Stake: sim.Dna(int64(20+rnd.Intn(200)), 1)})
+	}
 	if cfg.big {
 		for i := 24; i < nkeys; i++ {
 			w.Allocs = append(w.Allocs, sim.Alloc{Key: i, State: state.Verified, Balance: sim.Dna(10, 1), Stake: sim.Dna(int64(10+rnd.Intn(90)), 1)})
 		}
 	}
-	h := &hist{w: w, rnd: rnd, out: out, id: id, props: map[int]*replica{}, recs: map[string]*txRec{}, ledgers: map[uint64]*sim.Ledger{}, fresh: 9, cfg: cfg,
+	h := &hist{w: w, rnd: rnd, out: out, id: id, props: map[int]*replica{}, recs: map[string]*txRec{}, ledgers: map[uint64]*sim.Ledger{}, fresh: 15, cfg: cfg,
 		flagsAt: map[uint64]int{}, txsAt: map[uint64][]string{}}
 	// proposer-capable replicas (each owns a key); they also differ in node-local history
 	kinds := []string{"line", "restart", "rollback", "spec", "valins", "random"}
@@ -242,13 +253,90 @@ func (h *hist) anyKey() int { return h.rnd.Intn(h.fresh + 1) }
 // genTxs produces the submissions for the coming block: a seeded mix of every plain tx type with
 // targets in every relationship to the signer, amounts on the funds boundary, in and out of nonce
 // order, right and wrong epochs, and replays of already included transactions.
+// graphTxs builds the scenario's delegation graph with real DelegateTx transactions, one edge per delegation-switch
+// window, sources first (a delegation can only be switched on while its target has no delegatee itself).
+func (h *hist) graphTxs() []*txRec {
+	s := h.ref.n.App.State
+	if h.graphSent == nil {
+		h.graphSent = map[int]uint64{}
+	}
+	edges := orderEdges(h.cfg.graph)
+	head := h.ref.n.Chain.Head.Height()
+	for i, e := range edges {
+		src, dst := e[0], e[1]
+		if d := s.Delegatee(h.w.Addrs[src]); d != nil && *d == h.w.Addrs[dst] {
+			continue // switched on
+		}
+		if sent, ok := h.graphSent[i]; ok && head < sent+7 {
+			return nil // submitted, waiting for the switch block
+		}
+		if s.ValidationPeriod() != state.NonePeriod {
+			return nil
+		}
+		h.graphSent[i] = head
+		to := h.w.Addrs[dst]
+		return []*txRec{h.mkTx(src, types.DelegateTx, &to, nil, nil, 0, 0, map[int]uint32{})}
+	}
+	return nil
+}
+
+// orderEdges: an edge (s -> t) before (t -> u)
+func orderEdges(g [][2]int) [][2]int {
+	var res [][2]int
+	left := append([][2]int(nil), g...)
+	for len(left) > 0 {
+		progressed := false
+		for i, e := range left {
+			blocked := false
+			for _, f := range left {
+				if f[1] == e[0] { // somebody still has to delegate TO e's source first
+					blocked = true
+				}
+			}
+			if !blocked {
+				res = append(res, e)
+				left = append(left[:i], left[i+1:]...)
+				progressed = true
+				break
+			}
+		}
+		if !progressed {
+			break
+		}
+	}
+	return res
+}
+
+func (h *hist) graphBuilt() bool {
+	s := h.ref.n.App.State
+	for _, e := range h.cfg.graph {
+		if d := s.Delegatee(h.w.Addrs[e[0]]); d == nil || *d != h.w.Addrs[e[1]] {
+			return false
+		}
+	}
+	return true
+}
+
 func (h *hist) genTxs() []*txRec {
+	if h.cfg.graph != nil {
+		return h.graphTxs()
+	}
 	var res []*txRec
 	pend := map[int]uint32{}
 	s := h.ref.n.App.State
-	n := h.rnd.Intn(5)
+	n := 1 + h.rnd.Intn(6)
 	if h.rnd.Intn(5) == 0 {
-		n += 3
+		n += 4
+	}
+	// who currently delegates to whom (to aim undelegations / terminations at real relationships)
+	var delegators, pools []int
+	for k := 0; k < 24 && k < len(h.w.Addrs); k++ {
+		if d := s.Delegatee(h.w.Addrs[k]); d != nil {
+			delegators = append(delegators, k)
+			if i := h.w.Index(*d); i >= 0 && i < 24 {
+				pools = append(pools, i)
+			}
+		}
 	}
 	add := func(r *txRec, counts bool) {
 		res = append(res, r)
@@ -263,7 +351,7 @@ func (h *hist) genTxs() []*txRec {
 		}
 		from := h.pick(fs)
 		nadj, eadj := 0, 0
-		switch h.rnd.Intn(14) {
+		switch h.rnd.Intn(22) {
 		case 0:
 			nadj = 1 // gap
 		case 1:
@@ -343,15 +431,37 @@ func (h *hist) genTxs() []*txRec {
 			online := h.rnd.Intn(3) != 0
 			add(h.mkTx(from, types.OnlineStatusTx, nil, nil, attachments.CreateOnlineStatusAttachment(online), nadj, eadj, pend), counts)
 		case 9:
-			to := h.w.Addrs[h.rnd.Intn(9)]
+			// delegations concentrate on two pools so that pools with several members (and departures from them) occur
+			to := h.w.Addrs[h.rnd.Intn(15)]
+			if h.rnd.Intn(4) != 0 {
+				to = h.w.Addrs[1+h.rnd.Intn(2)]
+			}
 			add(h.mkTx(from, types.DelegateTx, &to, nil, nil, nadj, eadj, pend), counts)
 		case 10:
+			if len(delegators) > 0 && h.rnd.Intn(3) != 0 {
+				from = h.pick(delegators)
+			}
 			add(h.mkTx(from, types.UndelegateTx, nil, nil, nil, nadj, eadj, pend), counts)
 		case 11:
 			to := h.w.Addrs[h.rnd.Intn(9)]
+			if len(pools) > 0 && h.rnd.Intn(4) != 0 {
+				from = h.pick(pools)
+			}
+			if h.rnd.Intn(3) != 0 {
+				// a pool terminating one of its own delegators
+				var mine []common.Address
+				for k := 0; k < 24; k++ {
+					if d := s.Delegatee(h.w.Addrs[k]); d != nil && *d == h.w.Addrs[from] {
+						mine = append(mine, h.w.Addrs[k])
+					}
+				}
+				if len(mine) > 0 {
+					to = mine[h.rnd.Intn(len(mine))]
+				}
+			}
 			add(h.mkTx(from, types.KillDelegatorTx, &to, nil, nil, nadj, eadj, pend), counts)
 		case 12:
-			to := h.w.Addrs[h.rnd.Intn(9)]
+			to := h.w.Addrs[h.rnd.Intn(15)]
 			add(h.mkTx(from, types.ReplenishStakeTx, &to, amt(), nil, nadj, eadj, pend), counts)
 		case 13:
 			add(h.mkTx(from, types.BurnTx, nil, amt(), attachments.CreateBurnAttachment("k"), nadj, eadj, pend), counts)
@@ -489,7 +599,7 @@ func (h *hist) block() bool {
 	height := h.ref.n.Chain.Head.Height() + 1
 	epochBlockPre := h.ref.n.App.State.EpochBlock()
 	pre := h.prevLed
-	empty := noProposer || h.rnd.Intn(9) == 0
+	empty := noProposer || (h.cfg.graph == nil && h.rnd.Intn(9) == 0)
 	if st := h.ref.n.App.State; st.ValidationPeriod() == state.AfterLongSessionPeriod && st.CanCompleteEpoch() {
 		// the coming block finishes the validation: the per-identity results (a stand-in for the
 		// answers recorded in blocks) are handed to every replica's ceremony before anybody evaluates
@@ -519,7 +629,9 @@ func (h *hist) block() bool {
 			head := h.ref.n.Chain.Head.Time()
 			period := h.ref.n.App.State.ValidationPeriod()
 			switch {
-			case period == state.NonePeriod && (h.blocksInEpoch > 14 || h.cfg.heavy && h.blocksInEpoch > 9) && head < nv-int64(5*60):
+			case period == state.NonePeriod && h.cfg.graph != nil && !(h.graphBuilt() || h.blocksInEpoch > 60):
+				// keep building the delegation graph
+			case period == state.NonePeriod && (h.blocksInEpoch > 34 || h.cfg.heavy && h.blocksInEpoch > 26 || h.cfg.graph != nil) && head < nv-int64(5*60):
 				delay = nv - int64(4*60) - head // flip lottery starts
 			case period == state.FlipLotteryPeriod:
 				delay = maxI(20, nv-head+1)
@@ -784,6 +896,10 @@ func (h *hist) injectEpoch(height uint64) {
 		if addr == h.w.Addrs[0] && !ns.NewbieOrBetter() {
 			ns = state.Verified // keep the god identity able to propose
 		}
+		if h.cfg.graph != nil && id.State == state.Candidate {
+			ns = state.Newbie // every member of the delegation graph is validated in the same epoch
+			o.Birthday = s.Epoch() + 1
+		}
 		if h.cfg.big && h.w.Index(addr) >= 24 {
 			// the crowd of a big genesis stays validated (network size stays above the small-network branch)
 			if h.rnd.Intn(20) != 0 {
@@ -816,6 +932,7 @@ func main() {
 	epochs := flag.Bool("epochs", true, "drive validation periods and epoch transitions")
 	schedFile := flag.String("sched", "", "history-shape schedules exported by TLC (json lines)")
 	replays := flag.Bool("replays", false, "offer crafted blocks that re-include / mis-sign transactions")
+	graphFile := flag.String("graphs", "", "delegation graphs exported by TLC from EpochLoop.tla (json lines); one history per graph")
 	heavy := flag.Bool("identity-heavy", false, "bias the generator towards identity-changing events")
 	reorgs := flag.Bool("reorgs", false, "the network switches forks now and then (real ResetTo on every replica)")
 	flag.Parse()
@@ -844,14 +961,34 @@ func main() {
 	defer w.Close()
 	seed := tr.Seed()
 	blocks, refused := 0, 0
+	var graphs [][][2]int
+	if *graphFile != "" {
+		tr.ReadLines(*graphFile, func(raw []byte) {
+			var x struct {
+				Graph [][2]int `json:"graph"`
+			}
+			if err := json.Unmarshal(raw, &x); err != nil {
+				panic(err)
+			}
+			graphs = append(graphs, x.Graph)
+		})
+		*nh = len(graphs)
+	}
 	for i := 0; i < *nh; i++ {
 		cfg := &scenCfg{blocks: *nb, epochs: *epochs, nProposers: 6, big: *big && i == 0, replays: *replays, heavy: *heavy, reorgs: *reorgs}
 		if len(scheds) > 0 {
 			cfg.sched = scheds[i%len(scheds)]
 		}
+		if len(graphs) > 0 {
+			cfg.graph = graphs[i]
+			cfg.big = false
+		}
 		h := newHist(seed, i, cfg, w)
 		h.start()
 		for b := 0; b < cfg.blocks; b++ {
+			if cfg.graph != nil && h.ref.n.App.State.Epoch() > 0 && h.blocksInEpoch > 3 {
+				break
+			}
 			if !h.block() {
 				refused++
 				break
